@@ -78,17 +78,14 @@ class ConditionalSMCSampler(AbstractSMCSampler):
 
         uniform_weight = -np.log(self.num_particles)
 
-        self.swarm.add_particle(uniform_weight, self.constrained_path[1])
-
-        for _ in range(self.num_particles - 1):
-            self.swarm.add_particle(uniform_weight, self._propose_particle(None))
-
-        for particle in self.swarm.particles:
-            assert particle.parent_particle is None
-
-        self.iteration += 1
+        for _ in range(self.num_particles):
+            self.swarm.add_particle(uniform_weight, None)
 
     def _resample_swarm(self):
+        if self.iteration == 0 and self.swarm.particles[0] is None:
+            # Nothing to resample before the first data point has been added
+            return
+
         if self.swarm.relative_ess <= self.resample_threshold:
             new_swarm = ParticleSwarm()
 
